@@ -291,9 +291,6 @@ fn predictor_geometry(params: &LZWFlateParams) -> Result<(usize, usize)> {
 }
 
 pub fn flate_decode(data: &[u8], params: &LZWFlateParams) -> Result<Vec<u8>> {
-    let predictor = params.predictor;
-
-
     // First flate decode
     let decoded = {
         if let Ok(data) = inflate_bytes_zlib(data) {
@@ -305,7 +302,14 @@ pub fn flate_decode(data: &[u8], params: &LZWFlateParams) -> Result<Vec<u8>> {
             bail!("can't inflate");
         }
     };
-    // Then unfilter (PNG)
+    // Then undo the predictor
+    unpredict(decoded, params)
+}
+
+/// Undo the predictor named by `params` (the same for FlateDecode and LZWDecode).
+fn unpredict(decoded: Vec<u8>, params: &LZWFlateParams) -> Result<Vec<u8>> {
+    let predictor = params.predictor;
+    // unfilter (PNG)
     // For this, take the old out as input, and write output to out
 
     // 10..=15 are the PNG predictors: every row starts with a tag byte naming its filter (also for 10, `None`)
@@ -381,7 +385,7 @@ pub fn lzw_decode(data: &[u8], params: &LZWFlateParams) -> Result<Vec<u8>> {
     decoder
         .into_stream(&mut out)
         .decode_all(data).status?;
-    Ok(out)
+    unpredict(out, params)
 }
 fn lzw_encode(data: &[u8], params: &LZWFlateParams) -> Result<Vec<u8>> {
     use weezl::{BitOrder, encode::Encoder};
